@@ -4,7 +4,7 @@
 
    Model  Model/C10Machine.v: [step : state -> op -> state * answer], the transliteration of the caches
           (_cu_offsets_map/_cu_cache, _diemap/_dielist, _abbrevtable_cache, _linetable_cache,
-          _section_name_map, _symbol_name_map, _num_tags, _decoded_entries), the object heaps with
+          _section_name_map, _symbol_name_map, _num_tags, _decoded_entries, CFIEntry._decoded_table), the object heaps with
           _parent/_terminator, ONE cursor per stream, and the frames of live generators.
    Spec   Spec/C10Spec.v: [query_spec F o], a function of the file and the query only, and [spec_step]
           over iterator positions alone (no caches, no cursors, no objects).
@@ -118,6 +118,15 @@ Theorem C10_query_after_history : forall F, wf_file F = true -> forall fuel, fue
 Proof. exact query_after_history. Qed.
 Print Assumptions C10_query_after_history.
 
+(* ---- the decoded call-frame table of entries[i] (CFIEntry.get_decoded(), memoised per entry; an FDE goes
+   through the memo of its CIE) is the same after every history of fetching lists and decoding other entries *)
+Theorem C10_cfi_decoded_history_independent : forall F, wf_file F = true -> forall fuel, fuel_ok F fuel = true ->
+  forall n h eh i, forallb (op_ok F) (h ++ [CFIDecoded eh i]) = true ->
+  snd (step (parsers_of F) fuel (fst (run (parsers_of F) fuel (init_state n) h)) (CFIDecoded eh i)) =
+  query_spec F (CFIDecoded eh i).
+Proof. exact cfi_decoded_after_history. Qed.
+Print Assumptions C10_cfi_decoded_history_independent.
+
 (* ---- repeated identical queries return equal results, whatever happens in between *)
 Theorem C10_repeated_queries_equal : forall F, wf_file F = true -> forall fuel, fuel_ok F fuel = true ->
   forall n h1 h2 o, forallb (op_ok F) (h1 ++ o :: h2 ++ [o]) = true -> is_query o = true ->
@@ -193,7 +202,7 @@ Proof. vm_compute. repeat split. Qed.
 Definition ex_history : list op :=
   [DIEAt 0 20; Disturb 1 7; Parent 0 20; CUAt 0; DIEAt 0 15; Parent 0 22; DIEAt 0 20; Disturb 1 0; TopDIE 0;
    CUContaining 17; DIEGlobal 22; Parent 0 11; FollowRef 0 11 0; FollowRef 0 11 1; LineEntries 0; LineProg 0;
-   LineEntries 0; CFI false; Disturb 0 3;
+   LineEntries 0; CFIDecoded false 2; CFIDecoded false 0; CFI false; CFIDecoded false 1; CFIDecoded false 2; Disturb 0 3;
    NewIterCUs 0; NewIterSections 1; Next 0; Next 1; ESectionByName 2; Next 1; Next 0; Next 1;
    NewIterSymbols 0; NewIterTags 1; Next 0; Next 1; ESymbolByName 3; EGetTag 1; Next 1; EGetTag 2; ENumTags; Next 1;
    ESection 1; ESegment 0; ESymbol 0; EString 0; ENumSections;
@@ -205,7 +214,8 @@ Example C10_ex_history_ok : forallb (op_ok ex_file0) ex_history = true /\
   snd (run (parsers_of ex_file0) 40 (init_state 2) ex_history) = snd (spec_run ex_file0 (repeat AFEmpty 2) ex_history) /\
   nth 2 (snd (run (parsers_of ex_file0) 40 (init_state 2) ex_history)) ANone = ADie 0 18 3 /\
   nth 15 (snd (run (parsers_of ex_file0) 40 (init_state 2) ex_history)) ANone = AVals [200; 1] /\
-  nth 60 (snd (run (parsers_of ex_file0) 40 (init_state 2) ex_history)) ANone = AErr (EPy "RuntimeError").
+  nth 64 (snd (run (parsers_of ex_file0) 40 (init_state 2) ex_history)) ANone = AErr (EPy "RuntimeError") /\
+  nth 17 (snd (run (parsers_of ex_file0) 40 (init_state 2) ex_history)) ANone = AVals [502].
 Proof. vm_compute. repeat split. Qed.
 
 (* the same history without LineProg is inside the theorem's domain on the file WITH DW_LNE_define_file *)
